@@ -42,10 +42,32 @@ Theorem C15_dry_run_no_change_refuted_uninitialised_dst :
 Proof. exists wit_C15_w6. exact w6_facts. Qed.
 Print Assumptions C15_dry_run_no_change_refuted_uninitialised_dst.
 
-(* PARTIAL (what is proved): the "writes nothing" half.  Project level: once copytree (F4) and the nested
-   document proxy (F16) are repaired a dry run returns the destination project unchanged — every selection,
-   strategy, document strategy, outcome, sequential or pooled.  MISSING: "raises c <-> the real run raises c"
-   is not proved (it is checked on every correspondence case through the companion real run). *)
+(* The FULL statement holds for the repaired code (F3, F4, F16 = the three dry-run patches of notes/C15.md):
+   a project-level dry run returns the destination project EQUAL to the input (files, directories, documents,
+   mtimes) and ends with the exception class of the real run (None = returns).  The source is untouched by
+   C13_sync_src_unchanged.  [job_ok]: source job directories have distinct names at every level, documents have
+   distinct keys, no stale "~" backup of the document in the source. *)
+Theorem C15_dry_run_no_change : forall frepr cf, fix_F3 cf = true -> fix_F4 cf = true -> fix_F16 cf = true ->
+  forall o src dst,
+  NoDup (map fst (p_ws src)) -> (forall kn, In kn (p_ws src) -> job_ok (snd kn)) ->
+  wf (JObj (read_doc FN_PDOC (p_top src))) = true ->
+  fst (sync_projects_m frepr cf false (set_dry o true) src dst) = dst
+  /\ snd (sync_projects_m frepr cf false (set_dry o true) src dst)
+     = snd (sync_projects_m frepr cf false (set_dry o false) src dst).
+Proof. exact dry_run_no_change_fixed. Qed.
+Print Assumptions C15_dry_run_no_change.
+
+(* the same at job level (Job.sync / sync_jobs) for an initialised destination job *)
+Theorem C15_dry_run_no_change_job_level : forall frepr cf, fix_F3 cf = true -> fix_F4 cf = true -> fix_F16 cf = true ->
+  forall o deep fp sdir ddir dsp, job_ok (Dir sdir) ->
+  fst (sync_jobs_m frepr cf (set_dry o true) deep fp (Some sdir) (Some ddir) dsp) = Some ddir
+  /\ snd (sync_jobs_m frepr cf (set_dry o true) deep fp (Some sdir) (Some ddir) dsp)
+     = snd (sync_jobs_m frepr cf (set_dry o false) deep fp (Some sdir) (Some ddir) dsp).
+Proof. exact dry_run_no_change_fixed_job. Qed.
+Print Assumptions C15_dry_run_no_change_job_level.
+
+(* PARTIAL: the "writes nothing" half needs only F4 and F16 (F3 only turns "returns" into TypeError), and holds
+   for the pooled variant too *)
 Theorem C15_dry_run_no_change_partial : forall frepr cf all o src dst,
   o_dry_run o = true -> fix_F4 cf = true -> fix_F16 cf = true -> docs_wf src ->
   fst (sync_projects_m frepr cf all o src dst) = dst.
